@@ -420,3 +420,57 @@ Proof.
     rewrite app_assoc in Hncp. apply ncp_prefix in Hncp.
     apply (final_ok n cur cbits sbits out Hinv Hc8). apply ncp_sym_none. exact Hncp.
 Qed.
+
+(* ---------------- all input bytes ---------------- *)
+Definition finish (r : hstep * Z) : hres :=
+  match r with
+  | (HStop x, _) => x
+  | (HGo n cbits sbits out, cur) => tail_finish 9 n cur cbits sbits out
+  end.
+Lemma huff_decode_finish v : huff_decode v = finish (hd_bytes huff_trie v O 0 0 0 []).
+Proof.
+  unfold huff_decode, huff_decode_with, finish, tail_finish, final.
+  destruct (hd_bytes huff_trie v 0 0 0 0 []) as [[n cbits sbits out|x] cur]; reflexivity.
+Qed.
+Lemma bytes_S b r n cur cbits sbits out :
+  hd_bytes huff_trie (b :: r) n cur cbits sbits out =
+  match hd_inner 16 huff_trie n (Z.land (Z.lor (Z.shiftl cur 8) b) (Z.ones 64)) (cbits + 8) (sbits + 8) out with
+  | HGo n' cb sb out' => hd_bytes huff_trie r n' (Z.land (Z.lor (Z.shiftl cur 8) b) (Z.ones 64)) cb sb out'
+  | HStop x => (HStop x, Z.land (Z.lor (Z.shiftl cur 8) b) (Z.ones 64))
+  end.
+Proof. reflexivity. Qed.
+
+Lemma bytes_ok : forall v n cur cbits sbits out,
+  wf_bytes v = true -> inv n cbits sbits -> cbits < 8 ->
+  finish (hd_bytes huff_trie v n cur cbits sbits out) = R out (path_of n ++ qb cur cbits ++ bytes_bits v).
+Proof.
+  induction v as [|b r IH]; intros n cur cbits sbits out Hw Hinv Hc8.
+  - cbn [hd_bytes finish bytes_bits flat_map]. rewrite app_nil_r.
+    apply tail_ok; [exact Hinv|exact Hc8|]. simpl. lia.
+  - cbn [wf_bytes forallb] in Hw. apply andb_true_iff in Hw. destruct Hw as [Hb Hw]. unfold wf_byte in Hb.
+    pose proof Hinv as [Hn [Hc Hs]].
+    rewrite bytes_S. set (cur' := Z.land (Z.lor (Z.shiftl cur 8) b) (Z.ones 64)).
+    assert (inv n (cbits + 8) (sbits + 8)) as Hinv' by (split; [exact Hn|split; lia]).
+    pose proof (inner_ok 16 n cur' (cbits + 8) (sbits + 8) out (bytes_bits r) Hinv' ltac:(simpl; lia)) as Hi.
+    assert (qb cur' (cbits + 8) = qb cur cbits ++ byte_bits b) as Hq by (apply qb_push; lia).
+    rewrite Hq in Hi. cbn [bytes_bits flat_map]. fold (bytes_bits r).
+    replace (path_of n ++ qb cur cbits ++ byte_bits b ++ bytes_bits r)
+      with (path_of n ++ (qb cur cbits ++ byte_bits b) ++ bytes_bits r) by (rewrite <- !app_assoc; reflexivity).
+    destruct (hd_inner 16 huff_trie n cur' (cbits + 8) (sbits + 8) out) as [n' cb sb out'|x].
+    + destruct Hi as [Hinv2 [Hcb HR]]. rewrite HR. apply IH; assumption.
+    + cbn [finish]. exact Hi.
+Qed.
+
+(* THE EQUIVALENCE: for every byte string the trie decoder and the RFC bit-level decoder give the same result
+   (a decoded string or an error; never a panic, never fuel exhaustion). *)
+Theorem huff_decode_eq_spec : forall v, wf_bytes v = true -> huff_decode v = huff_decode_spec v.
+Proof.
+  intros v Hw. rewrite huff_decode_finish.
+  assert (inv 0 0 0) as Hinv by (split; [lia|split; [lia|rewrite path_root; reflexivity]]).
+  rewrite (bytes_ok v O 0 0 0 [] Hw Hinv ltac:(lia)). rewrite path_root.
+  unfold qb. cbn [Z.to_nat bits_msb app]. unfold R, bd, huff_decode_spec, rfc_huff_decode.
+  rewrite (bd_fuel (length (bytes_bits v)) (S (length v * 8)) (bytes_bits v)); [reflexivity|lia|].
+  assert (length (bytes_bits v) = (length v * 8)%nat) as ->; [|lia].
+  clear. induction v as [|b l IH]; [reflexivity|]. cbn [bytes_bits flat_map]. rewrite app_length. fold (bytes_bits l).
+  rewrite IH, byte_bits_length. simpl. lia.
+Qed.
